@@ -398,6 +398,7 @@ def drive_hypothesis(
     if max_buckets is None:
         max_buckets = 2 if rec.tier == "quick" else 6
     phases = [Phase.explicit, Phase.generate] + ([Phase.shrink] if shrink else [])
+    shrink_budget = 40.0 if rec.tier == "quick" else 150.0
     st = settings(
         max_examples=max_examples,
         database=None,
@@ -416,12 +417,18 @@ def drive_hypothesis(
         shrinking = {"on": False}
 
         def body(case: Any) -> None:
+            if shrinking["on"] and time.monotonic() - last.get("t0", 0.0) > shrink_budget:
+                # the violation is established; the clock only bounds how long the reproduction is
+                # minimised further (every later attempt "passes", so the shrinker winds down at once)
+                return
             res = oracle(case)
             new, old = rec.split(res)
             if not shrinking["on"]:
                 rec.count(sub, case, res)
                 rec.note_known(old)
             if new:
+                if not shrinking["on"]:
+                    last["t0"] = time.monotonic()
                 shrinking["on"] = True
                 # while shrinking, stick to the first new bucket seen
                 tgt = last.get("bucket")
